@@ -1,8 +1,8 @@
 #!/usr/bin/env python3
 """C08 case generator and three-way comparison (code vs extracted model vs extracted spec).
 
-usage: gen_expr_cases.py <seed> <count> [--exhaustive k] [--run] [--exprdump PATH] [--driver PATH]
-                         [--keep DIR] [--max-report N]
+usage: gen_expr_cases.py <seed> <count> [--exhaustive k] [--soup n] [--run] [--exprdump PATH]
+                         [--driver PATH] [--keep DIR] [--max-report N]
 
 Without --run: prints one case per line on stdout:
     <tree> TAB <hex text>
@@ -18,13 +18,19 @@ Without --run: prints one case per line on stdout:
   <count> random deeper expressions (depth to 12, up to 40 operators), case i derived from
       (<seed>, i) through splitmix64 only.
 
+  --soup n : n random short token sequences over a vocabulary that also contains tokens OUTSIDE the
+      fragment (. :: , IN BETWEEN LIKE IS AS ANY ALL [ ] ? -> strings floats keywords ...), printed as
+      "~ TAB <hex text>".  They probe the fragment boundary: whenever the model answers (no
+      OutOfFragment, nothing left over) its answer must equal the code's; OOF is not an error here.
+
 With --run: runs the comparison and prints a summary; exit status 1 on any disagreement.
   code  : /verif/build/exprdump            (real parser + Explain on `SELECT <text>`)
   model : /verif/build/exprdump -tokens | /verif/build/expr_driver model   (extracted ExprModel)
   spec  : /verif/build/expr_driver spec    (extracted ExprSpec: wfb, print, ref)
   checks: (1) model = code on every text unless the model says OOF (counted; in-fragment texts must
               not be OOF: the generator only writes in-fragment texts, so OOF is itself reported);
-          (2) for every tree with wfb = true: spec text = generator text, and ref = code.
+          (2) for every tree with wfxb = true (precedence-climb readings; the layered ones, wfb = true,
+              are counted separately): spec text = generator text, and ref = code.
 """
 import os
 import subprocess
@@ -164,6 +170,10 @@ def bare_shapes(k, ops):
                     yield (op, l, r)
 
 
+def inorder_ops(t):
+    return () if t is None else inorder_ops(t[1]) + (t[0],) + inorder_ops(t[2])
+
+
 def count_nodes(t):
     return 1 if t is None else 1 + count_nodes(t[1]) + count_nodes(t[2])
 
@@ -197,6 +207,7 @@ def build(t, assign, leafkind, spell, notword):
     """decorate the bare tree t (preorder node numbering) -> tree"""
     idx = [0]
     leaf = [0]
+    opno = [0]
 
     def go(t):
         i = idx[0]
@@ -206,8 +217,9 @@ def build(t, assign, leafkind, spell, notword):
             leaf[0] += 1
             e = ('n', j) if leafkind == 'n' else ('i', "abcdefghij"[j])
         else:
-            op = spell(t[0], i)
             l = go(t[1])
+            op = spell(t[0], opno[0])      # operators are numbered in text order
+            opno[0] += 1
             r = go(t[2])
             e = ('b', op, l, r)
         for w in reversed(assign[i]):      # the first letter is the outermost wrapper
@@ -245,23 +257,28 @@ def exhaustive(kmax):
                     yield build(t, a, 'n', lambda c, i: REPRESENTATIVE[c], lambda i: "NOT")
     # pass 2: cycle every spelling through every position (three rotations), smaller budgets
     for rot in range(3):
-        case = [0]
         for k in range(1, kmax + 1):
             budget = max(budgets.get(k, 0) - 1, 0)
             shapes = list(bare_shapes(k, CLASSES))
             n = 2 * k + 1
             assigns = list(wrapper_assignments(n, budget))
+            seqno = {}
             for t in shapes:
+                # spellings depend on the operator sequence in text order only, so that all
+                # parenthesis / prefix decorations and all groupings of one operator sequence
+                # (hence every reading of one text) use the same spellings
+                key = inorder_ops(t)
+                if key not in seqno:
+                    seqno[key] = len(seqno) + 1
+                c0 = seqno[key] + 1000 * k
                 for a in assigns:
-                    case[0] += 1
-                    c0 = case[0]
 
                     def spell(c, i, c0=c0):
                         s = CLASS_SPELLINGS[c]
                         return s[(c0 + i * 7 + rot * 3) % len(s)]
 
                     def notword(i, c0=c0):
-                        return ("NOT", "not")[(c0 + i + rot) % 2]
+                        return ("NOT", "not")[(c0 + rot) % 2]
                     yield build(t, a, 'i' if (c0 + rot) % 4 else 'n', spell, notword)
     # pass 3: every ordered pair (and for kmax >= 4 the triples over one spelling per token kind)
     #          of operator spellings, both shapes, wrapper budget 1
@@ -425,6 +442,34 @@ def random_case(seed, i):
     return sanitize(random_tree(rng, depth, ops, sloppy_p))
 
 
+SOUP_IN = ["a", "b", "date", "1", "2", "0", "007", "(", ")", "(", ")", "NOT", "not", "-", "-", "+", "*",
+           "/", "%", "AND", "OR", "and", "=", "==", "<>", "<", "<=>", "||", "DIV", "MOD"]
+SOUP_OUT = [".", "::", ",", "IN", "BETWEEN", "LIKE", "IS", "NULL", "'x'", "[", "]", "?", ":", "AS", "any",
+            "ANY", "ALL", "->", "1.5", ".1", "0x1F", "inf", "SELECT", "x.y", "f(", "1e3", "GLOBAL",
+            "ILIKE", "REGEXP", "EXCEPT", "`q`", "@@v", "18446744073709551616", "9223372036854775809"]
+
+
+def soup_case(seed, i):
+    """a small random expression with one to three token-level edits (insert / delete / replace)"""
+    rng = SplitMix((seed * 0x1000193 + 0x5EED + i) & MASK)
+    rng.next()
+    base = sanitize(random_tree(rng, 1 + rng.below(3), [1 + rng.below(4)], 20))
+    toks = []
+    tokens(base, toks)
+    p_out = rng.choice([0, 0, 10, 30])
+    for _ in range(1 + rng.below(3)):
+        t = rng.choice(SOUP_OUT) if rng.chance(p_out, 100) else rng.choice(SOUP_IN)
+        k = rng.below(3)
+        pos = rng.below(len(toks) + 1)
+        if k == 0 or not toks:
+            toks.insert(pos, t)
+        elif k == 1:
+            del toks[min(pos, len(toks) - 1)]
+        else:
+            toks[min(pos, len(toks) - 1)] = t
+    return " ".join(toks)
+
+
 # ---------------------------------------------------------------------------------------------
 
 def all_cases(seed, count, kmax):
@@ -453,6 +498,10 @@ def run_tool(argv, data):
     return p.stdout
 
 
+def hx(text):
+    return text.encode().hex() or "-"
+
+
 def unhex(h):
     return "" if h == "-" else bytes.fromhex(h).decode(errors="replace")
 
@@ -465,6 +514,7 @@ def main():
     seed = int(args[0])
     count = int(args[1])
     kmax = None
+    nsoup = 0
     run = False
     exprdump = "/verif/build/exprdump"
     driver = "/verif/build/expr_driver"
@@ -474,6 +524,8 @@ def main():
     while i < len(args):
         if args[i] == "--exhaustive":
             kmax = int(args[i + 1]); i += 2
+        elif args[i] == "--soup":
+            nsoup = int(args[i + 1]); i += 2
         elif args[i] == "--run":
             run = True; i += 1
         elif args[i] == "--exprdump":
@@ -493,7 +545,9 @@ def main():
             if e is not None:
                 w(case_line(e) + "\n")
             else:
-                w("-\t" + s.encode().hex() + "\n")
+                w("-\t" + hx(s) + "\n")
+        for j in range(nsoup):
+            w("~\t" + hx(soup_case(seed, j)) + "\n")
         return
 
     # ---- three-way comparison ----
@@ -506,9 +560,15 @@ def main():
             if enc != "-":
                 trees.append((enc, h))
         else:
-            h = s.encode().hex()
+            h = hx(s)
         if h not in texts:
             texts[h] = len(texts)
+    soup = set()
+    for j in range(nsoup):
+        h = hx(soup_case(seed, j))
+        if h not in texts:
+            texts[h] = len(texts)
+            soup.add(h)
     text_list = list(texts.keys())
     text_blob = ("\n".join(text_list) + "\n").encode()
     code_out = run_tool([exprdump], text_blob).decode().splitlines()
@@ -529,6 +589,7 @@ def main():
     code = {}
     bad = 0
     n_oof = 0
+    n_soup_oof = 0
     n_code_fail = 0
     reports = []
     for h, c, m in zip(text_list, code_out, model_out):
@@ -538,7 +599,9 @@ def main():
         code[h] = cv
         if cv in ("ERR", "PANIC"):
             n_code_fail += 1
-        if mv.startswith("OOF:") or mv == "FUEL":
+        if h in soup and mv.startswith("OOF:"):
+            n_soup_oof += 1
+        elif mv.startswith("OOF:") or mv == "FUEL":
             n_oof += 1
             bad += 1
             reports.append("MODEL-OOF  %-14s %s" % (mv, unhex(h)))
@@ -546,6 +609,7 @@ def main():
             bad += 1
             reports.append("MODEL!=CODE  %s\n--- code\n%s--- model\n%s" % (unhex(h), unhex(cv) if cv not in ("ERR", "PANIC") else cv + "\n", unhex(mv)))
     n_wf = 0
+    n_layered = 0
     n_notwf = 0
     for (enc, h), s in zip(trees, spec_out):
         if s == "NOTWF":
@@ -555,8 +619,10 @@ def main():
             bad += 1
             reports.append("SPEC-BAD  %s" % enc)
             continue
-        sh, sref = s.split("\t")
+        sh, sref, kind = s.split("\t")
         n_wf += 1
+        if kind == "L":
+            n_layered += 1
         if sh != h:
             bad += 1
             reports.append("SPEC-PRINT!=GENERATOR  %s | %s | %s" % (enc, unhex(sh), unhex(h)))
@@ -567,8 +633,8 @@ def main():
             reports.append("SPEC!=CODE  %s   [tree %s]\n--- code\n%s--- spec\n%s" % (unhex(h), enc, unhex(cv) if cv not in ("ERR", "PANIC") else cv + "\n", unhex(sref)))
     for r in reports[:max_report]:
         print(r)
-    print("texts=%d (code ERR/PANIC=%d, model OOF/FUEL=%d)  trees=%d (wf=%d, notwf=%d)  disagreements=%d"
-          % (len(text_list), n_code_fail, n_oof, len(trees), n_wf, n_notwf, bad))
+    print("texts=%d (code ERR/PANIC=%d, model OOF/FUEL=%d)  soup=%d (model OOF=%d)  trees=%d (wfx=%d of which layered wf=%d, notwf=%d)  disagreements=%d"
+          % (len(text_list), n_code_fail, n_oof, len(soup), n_soup_oof, len(trees), n_wf, n_layered, n_notwf, bad))
     sys.exit(1 if bad else 0)
 
 
